@@ -68,8 +68,8 @@ type AssertionSpec struct {
 	AuthnInstant                            string
 	SessionNOA                              string
 	NoSubject, NoConf, NoData, NoConditions bool
-	XsiTypes        bool // AttributeValue elements carry xsi:type="xs:string" (xmlns:xs / xmlns:xsi in scope)
-	CommentInValues bool // the IdP itself splits attribute values by a comment node (before signing)
+	XsiTypes                                bool // AttributeValue elements carry xsi:type="xs:string" (xmlns:xs / xmlns:xsi in scope)
+	CommentInValues                         bool // the IdP itself splits attribute values by a comment node (before signing)
 	UseCDATA                                bool // serialise NameID / attribute values as CDATA sections (the IdP signs that layout)
 	// bookkeeping
 	Relocated     bool      // an attacker edit moved the genuine element away from being a direct child of the root
